@@ -51,6 +51,8 @@ impl RocksDBTransaction {
 
     /// Commit the transaction.
     pub fn commit(&self) -> Result<()> {
+        #[cfg(feature = "verif-hooks")]
+        let _verif_guard = crate::verif_crash::CommitGuard::new();
         self.inner.commit().map_err(internal_error)
     }
 
